@@ -96,21 +96,9 @@ fn fwd(op: &Op, _ctx: &dyn Context, operands: &mut dyn CoordinateSet) -> usize {
 
         // Variant B and/or Laborde
 
-        // The special case
-        if ninety {
-            let u = if lon == lambda_0 {
-                0.0
-            } else {
-                A * (S * c0 + V * s0).atan2(cblon) / B - uc.copysign(latc) * (lonc - lon).signum()
-            };
-            let x = v * cc + u * sc + Ec;
-            let y = u * cc - v * sc + Nc;
-            operands.set_xy(i, x, y);
-            successes += 1;
-            continue;
-        }
-
-        // The general case
+        // atan2 follows the quadrant, so the case alpha = 90 (where the guidance note,
+        // using atan, flips the sign of uc across the central meridian) needs no special
+        // treatment beyond the value of uc
         let u = A * (S * c0 + V * s0).atan2(cblon) / B - uc.copysign(latc);
         let x = v * cc + u * sc + Ec;
         let y = u * cc - v * sc + Nc;
